@@ -50,7 +50,16 @@ def main():
             prop = meta["property"]
             rec = {"property": prop, "summary": meta.get("summary", ""), "needs": meta.get("needs", "")}
             sh(["git", "-C", wt, "reset", "-q", "--hard", "HEAD"])   # (index too: a failed 3-way leaves conflicts)
-            clean = sh([PY, os.path.join(d, "demo.py"), wt], timeout=600)
+            # a change whose context was rewritten by later `fix:` commits in /repo is kept as
+            # written (patch.diff, demo.py) next to its port to the repaired tree
+            # (patch.rebased.diff; demo.rebased.py where the demonstration read an attribute a
+            # fix has moved; rebase_note.txt says what differs)
+            demo = os.path.join(d, "demo.rebased.py")
+            if not os.path.exists(demo):
+                demo = os.path.join(d, "demo.py")
+            if os.path.exists(os.path.join(d, "rebase_note.txt")):
+                rec["rebase_note"] = open(os.path.join(d, "rebase_note.txt")).read().strip()
+            clean = sh([PY, demo, wt], timeout=600)
             rec["demo_clean_rc"] = clean.returncode
             ap = sh(["git", "-C", wt, "apply", os.path.join(d, "patch.diff")])
             if ap.returncode != 0:
@@ -60,11 +69,16 @@ def main():
                 if ap.returncode == 0:
                     sh(["git", "-C", wt, "reset", "-q"])
                     rec["applied"] = "3way"
+            if ap.returncode != 0 and os.path.exists(os.path.join(d, "patch.rebased.diff")):
+                sh(["git", "-C", wt, "reset", "-q", "--hard", "HEAD"])
+                ap = sh(["git", "-C", wt, "apply", os.path.join(d, "patch.rebased.diff")])
+                if ap.returncode == 0:
+                    rec["applied"] = "rebased"
             if ap.returncode != 0:
                 rec["error"] = "patch does not apply: " + ap.stderr[-200:]
                 results[sid] = rec
                 continue
-            bad = sh([PY, os.path.join(d, "demo.py"), wt], timeout=600)
+            bad = sh([PY, demo, wt], timeout=600)
             rec["demo_patched_rc"] = bad.returncode
             checks = ALL if all_checks else [prop]
             rec["checks"] = {}
@@ -93,7 +107,9 @@ def main():
     json.dump(results, open(res_path, "w"), indent=1, sort_keys=True)
     lines = ["# Seeded changes: which check catches what", "",
              "Generated by tools_seeded.py (quick tier, VERIF_SEED=0 unless stated). "
-             "`demo` = exit codes of the change's own demonstration on the clean / patched tree.", "",
+             "`demo` = exit codes of the change's own demonstration on the clean / patched tree. "
+             "† = the change was written against an earlier /repo HEAD and later `fix:` commits rewrote its context: "
+             "it is applied from its hand port to the repaired tree (patch.rebased.diff, same edit).", "",
              "| id | property | what the change does | needs | demo clean/patched | caught by its check | violation classes |",
              "|---|---|---|---|---|---|---|"]
     for sid in sorted(results):
@@ -104,7 +120,9 @@ def main():
         c = r["checks"][r["property"]]
         others = [p for p, x in r["checks"].items() if p != r["property"] and x["rc"] == 1]
         lines.append("| %s | %s | %s | %s | %s/%s | %s%s | %s |" % (
-            sid, r["property"], r["summary"].replace("|", "/"), r["needs"].replace("|", "/"),
+            sid + (" †" if r.get("applied") == "rebased" else ""), r["property"],
+            r["summary"].replace("|", "/") + ((" [port: " + r["rebase_note"] + "]") if r.get("rebase_note") else ""),
+            r["needs"].replace("|", "/"),
             r["demo_clean_rc"], r["demo_patched_rc"], "yes" if r["caught"] else "**no**",
             (" (also " + ",".join(others) + ")") if others else "", ", ".join(c["classes"])))
     if "SEEDED_RESULTS" not in os.environ:
